@@ -662,6 +662,32 @@ fn conn(r: &mut Rng, _i: u64, cycles: bool) -> Vec<String> {
     let mut handles: Vec<(usize, String)> = Vec::new();
     let mut reqs: Vec<(usize, String)> = Vec::new();
     let mut pending: Vec<String> = Vec::new();
+    // prologue (when a side has a single port number): an accept that is cancelled while it waits for a free
+    // port number must leave the request in the listener queue; it is accepted once the port has been released
+    for s in 0..2 {
+        let o = 1 - s;
+        if ports[s] == 1 && ports[o] >= 2 && r.chance(1, 2) {
+            l.push(format!("connect cp{s} {} cp{s} wait=1", sides[o]));
+            l.push(format!("accept ap{s} {} ap{s}", sides[s]));
+            l.push("settle".into());
+            l.push(format!("connect cq{s} {} cq{s} wait=1", sides[o]));
+            l.push("settle".into());
+            l.push(format!("accept aq{s} {} aq{s}", sides[s]));
+            l.push("settle".into());
+            l.push(format!("cancel aq{s}"));
+            l.push("settle".into());
+            for h in [format!("{} ap{s}", sides[s]), format!("{} cp{s}", sides[o])] {
+                l.push(format!("drop {h} tx"));
+                l.push(format!("drop {h} rx"));
+            }
+            l.push("settle".into());
+            l.push(format!("accept ar{s} {} ar{s}", sides[s]));
+            l.push("settle".into());
+            handles.push((s, format!("ar{s}")));
+            handles.push((o, format!("cq{s}")));
+            break;
+        }
+    }
     let rounds = if cycles { r.range(3, 8) } else { 1 };
     for round in 0..rounds {
         let steps = if cycles { r.range(3, 8) } else { r.range(4, 18) };
